@@ -36,16 +36,28 @@ def main():
             r0 = subprocess.run([PY, os.path.abspath(a.demo)], cwd=tmp, env=dict(os.environ, PYTHONPATH=tmp, OMP_NUM_THREADS="4"),
                                 capture_output=True, text=True)
             res["demo_clean_exit"] = r0.returncode
-        subprocess.check_call(["git", "apply", "--directory", tmp, "--unsafe-paths", os.path.abspath(a.patch)], cwd="/")
         man = json.load(open(os.path.join(VERIF, "MANIFEST.json")))
-        for c in man["checks"]:
-            pid = c["property_id"]
-            r = subprocess.run([PY, "-m", "tsverif.check", pid, "--root", tmp, "--no-write"], cwd=VERIF,
-                               capture_output=True, text=True)
-            rules = sorted({ln.split(": ", 1)[1].split(" ")[0] for ln in r.stdout.splitlines()
-                            if ": R" in ln and "[" in ln and not ln.startswith(("VIOLATION", "ANALYSIS", "NOTE"))})
-            res["checks"][pid] = {"exit": r.returncode, "rules": rules,
-                                  "errors": [ln[:300] for ln in r.stdout.splitlines() if ln.startswith("ANALYSIS-ERROR")]}
+
+        def run_checks():
+            out = {}
+            for c in man["checks"]:
+                pid = c["property_id"]
+                r = subprocess.run([PY, "-m", "tsverif.check", pid, "--root", tmp, "--no-write"], cwd=VERIF,
+                                   capture_output=True, text=True)
+                viol = {}
+                for ln in r.stdout.splitlines():
+                    if ": R" in ln and "[" in ln and not ln.startswith(("VIOLATION", "ANALYSIS", "NOTE")):
+                        rest = ln.split(": ", 1)[1]
+                        viol[rest.split("]")[0]] = rest.split(" ")[0]
+                out[pid] = (r.returncode, viol, [ln[:300] for ln in r.stdout.splitlines() if ln.startswith("ANALYSIS-ERROR")])
+            return out
+        base = run_checks()                 # verdicts are relative to the unpatched HEAD
+        subprocess.check_call(["git", "apply", "--directory", tmp, "--unsafe-paths", os.path.abspath(a.patch)], cwd="/")
+        for pid, (code, viol, errors) in run_checks().items():
+            new = {k: v for k, v in viol.items() if k not in base[pid][1]}
+            res["checks"][pid] = {"exit": 1 if new else (2 if code == 2 and base[pid][0] != 2 else 0),
+                                  "rules": sorted(set(new.values())), "errors": errors,
+                                  "base_exit": base[pid][0]}
         if a.demo:
             r1 = subprocess.run([PY, os.path.abspath(a.demo)], cwd=tmp, env=dict(os.environ, PYTHONPATH=tmp, OMP_NUM_THREADS="4"),
                                 capture_output=True, text=True)
